@@ -39,7 +39,9 @@ def main():
         return
     out["messages"] = {}
     for name in q.get("messages", []):
-        cls = getattr(pkg, name, None)
+        cls = pkg
+        for part in name.split("."):
+            cls = getattr(cls, part, None) if cls is not None else None
         if cls is None:
             out["messages"][name] = None
             continue
